@@ -291,6 +291,25 @@ def check_edit_isolation(space, name, acc):
                         "the same description as before the edit", bucket=f"edit-isolation:{space}")
 
 
+def check_encode_pair(a, b, acc):
+    """Two command names in ONE mapping of a sequence (a list item that lost its dash): the tool may refuse the description - if it accepts
+    it, every accepted name reaches the binary under its registered code."""
+    cmds = R.KEY_SPACES["commands"]
+    arg = lambda n: CMD_ARG.get(n, ["suit-send-record-failure"])  # noqa: E731
+    desc = seq_env([{a: arg(a), b: arg(b)}])
+    acc.case(nt_key=("enc-pair", a, b), classes=["encode-pair"], sample={"direction": "encode-pair", "names": [a, b]} if (len(a) + len(b)) % 9 == 0 else None, sample_key="enc-pair")
+    try:
+        data = sut.create_mem(desc)
+    except boot.HarnessError:
+        raise
+    except Exception:
+        acc.note("encode-pair:refused")
+        return
+    codes = _seq(data)[0::2]
+    if sorted(codes) != sorted([cmds[a], cmds[b]]):
+        raise Violation(f"commands: the mapping {{{a}: ..., {b}: ...}} is accepted and encodes the command codes {codes}", f"refusal, or codes {cmds[a]} and {cmds[b]}", bucket="encode-pair")
+
+
 CLOSED = list(R.KEY_SPACES)
 
 
@@ -751,6 +770,11 @@ def run_shard(ctx, spec):
         for sp, tab in R.KEY_SPACES.items():
             for name in tab:
                 _do(acc, "encode", {"space": sp, "name": name}, check_encode, sp, name)
+        names = list(R.KEY_SPACES["commands"])
+        for i, a in enumerate(names):
+            for b in (names[(i + 1) % len(names)], names[(i + 5) % len(names)], names[(i + 11) % len(names)]):
+                if a != b:
+                    _do(acc, "encode-pair", {"pair": [a, b]}, check_encode_pair, a, b)
         acc.info["unjudged_new_names"] = inventory()
         acc.info["vocabulary_pairs"] = sum(len(t) for t in R.KEY_SPACES.values())
     elif kind == "dec":
@@ -807,6 +831,8 @@ def replay(ctx, check, case):
             check_text_spelling(case["space"], case["name"], acc)
         elif check == "wide-code":
             check_wide_codes(case["space"], case["name"], acc)
+        elif check == "encode-pair":
+            check_encode_pair(case["pair"][0], case["pair"][1], acc)
         elif check == "edit-isolation":
             check_edit_isolation(case["space"], case["name"], acc)
         elif check == "tag-widths":
